@@ -105,9 +105,11 @@ async fn model_run<S: Store, F: std::future::Future<Output = S>>(label: &str, mk
                     if mixed { let k = batch.len() - 1; let h = batch[k].height(); if h >= 6 { batch[k] = fork[(h - 6) as usize].clone(); } }
                     // a batch whose last header claims the hash of an already stored header (unchecked constructor, as a
                     // buggy or malicious producer would): must be rejected as a whole
-                    if !mixed && batch.len() >= 2 && rng.below(5) == 0 && !model.hdr.is_empty() {
-                        let victim = *model.hdr.values().nth(rng.below(model.hdr.len() as u64) as usize).unwrap();
+                    if !mixed && batch.len() >= 2 && rng.below(4) == 0 && (!model.hdr.is_empty() || batch.len() >= 2) {
                         let k = batch.len() - 1;
+                        // ... or the hash of an earlier header of the same batch
+                        let victim = if model.hdr.is_empty() || rng.below(2) == 0 { batch[rng.below(k as u64) as usize].hash() }
+                            else { *model.hdr.values().nth(rng.below(model.hdr.len() as u64) as usize).unwrap() };
                         batch[k].commit.block_id.hash = victim;
                         let forged = unsafe { crate::store::utils::VerifiedExtendedHeaders::new_unchecked(batch.clone()) };
                         let res = store.insert(forged).await;
